@@ -418,6 +418,124 @@ def unlimited():
     return 'Z', cz(v)
 
 
+def _int_const(node, names):
+    """literal int expression; the names DEFAULT_MAX_INT / UNLIMITED are looked up among the module-level assignments"""
+    if isinstance(node, ast.Name) and node.id in names:
+        return names[node.id]
+    if isinstance(node, ast.UnaryOp) and isinstance(node.op, ast.USub):
+        return -_int_const(node.operand, names)
+    v = const(node)
+    if not isinstance(v, int) or isinstance(v, bool):
+        raise Shape(f'not an int literal: {src(node)}')
+    return v
+
+
+def _module_ints():
+    names = {}
+    for node in parse(DT).body:
+        if isinstance(node, ast.Assign) and len(node.targets) == 1 and isinstance(node.targets[0], ast.Name) \
+                and node.targets[0].id in ('DEFAULT_MIN_INT', 'DEFAULT_MAX_INT', 'UNLIMITED'):
+            if not all(isinstance(n, (ast.BinOp, ast.UnaryOp, ast.USub, ast.Constant, ast.LShift, ast.Pow, ast.Mult,
+                                      ast.Load)) for n in ast.walk(node.value)):
+                raise Shape(f'{node.targets[0].id} is not literal arithmetic')
+            names[node.targets[0].id] = eval(compile(ast.Expression(node.value), '<c10>', 'eval'), {})
+    return names
+
+
+def _intrange_bounds(node, names):
+    """`IntRange(lo[, hi])` as written for a Property -> (lo, hi); IntRange.__init__ fills a missing max with
+    DEFAULT_MAX_INT (checked on the constructor)"""
+    if _callname(node) != 'IntRange' or node.keywords or not 1 <= len(node.args) <= 2:
+        raise Shape(f'expected IntRange(lo[, hi]), found {src(node)}')
+    init = find_func(find_class(parse(DT), 'IntRange'), '__init__')
+    if 'max=DEFAULT_MAX_INTifmaxisNoneelsemax' not in src(init).replace(' ', ''):
+        raise Shape('IntRange.__init__: default of max is not DEFAULT_MAX_INT')
+    lo = _int_const(node.args[0], names)
+    hi = _int_const(node.args[1], names) if len(node.args) == 2 else names['DEFAULT_MAX_INT']
+    return lo, hi
+
+
+def dt_length_props():
+    """the length properties of the datatypes whose conversion depends on them: (class, property, lo, hi) of
+    StringType.minchars/maxchars, BLOBType.minbytes/maxbytes, ArrayOf.minlen/maxlen - each `Property(..., IntRange(..))`;
+    HasProperties.setProperty stores `self.propertyDict[key].datatype.validate(value)`"""
+    names = _module_ints()
+    t = parse(DT)
+    rows = []
+    for cn, props in (('StringType', ('minchars', 'maxchars')), ('BLOBType', ('minbytes', 'maxbytes')),
+                      ('ArrayOf', ('minlen', 'maxlen'))):
+        table = dict(_property_assigns(find_class(t, cn)))
+        for pn in props:
+            if pn not in table or len(table[pn].args) < 2:
+                raise Shape(f'{cn}.{pn}: Property with a datatype not found')
+            lo, hi = _intrange_bounds(table[pn].args[1], names)
+            rows.append(f'({cstr(cn)}, {cstr(pn)}, {cz(lo)}, {cz(hi)})')
+    f = find_func(find_class(parse(PR), 'HasProperties'), 'setProperty')
+    body = [n for n in f.body if not (isinstance(n, ast.Expr) and isinstance(n.value, ast.Constant))]
+    if len(body) != 1 or src(body[0]).replace(' ', '') != \
+            'self.propertyValues[key]=self.propertyDict[key].datatype.validate(value)':
+        raise Shape('HasProperties.setProperty does not validate with the datatype of the property')
+    return 'list (list N * list N * Z * Z)', '[' + ';\n   '.join(rows) + ']'
+
+
+def string_isutf8_is_bool():
+    """StringType.isUTF8 = Property(..., Stub('BoolType'), ...) and Stub.fix_datatypes() is called at module level (the
+    stub is replaced by BoolType()); StringType/BLOBType define no setProperty of their own; ArrayOf.setProperty sets
+    its own properties and forwards every other key to the element type"""
+    t = parse(DT)
+    table = dict(_property_assigns(find_class(t, 'StringType')))
+    ok = 'isUTF8' in table and len(table['isUTF8'].args) >= 2 and \
+        src(table['isUTF8'].args[1]).replace('"', "'") == "Stub('BoolType')"
+    ok = ok and any(isinstance(n, ast.Expr) and src(n).replace(' ', '') == 'Stub.fix_datatypes()' for n in t.body)
+    for cn in ('StringType', 'BLOBType'):
+        ok = ok and not any(isinstance(n, ast.FunctionDef) and n.name == 'setProperty' for n in find_class(t, cn).body)
+    f = find_func(find_class(t, 'ArrayOf'), 'setProperty')
+    body = [n for n in f.body if not (isinstance(n, ast.Expr) and isinstance(n.value, ast.Constant))]
+    ok = ok and len(body) == 1 and isinstance(body[0], ast.If) and \
+        src(body[0].test).replace(' ', '') == 'keyinself.propertyDict' and \
+        [src(n).replace(' ', '') for n in body[0].body] == ['super().setProperty(key,value)'] and \
+        [src(n).replace(' ', '') for n in body[0].orelse] == ['self.members.setProperty(key,value)']
+    return 'bool', cbool(ok)
+
+
+def length_datatypes_check_properties():
+    """StringType, BLOBType, ArrayOf.checkProperties call super().checkProperties(): the `min* <= max*` test of
+    HasProperties.checkProperties covers minchars/maxchars, minbytes/maxbytes, minlen/maxlen"""
+    t = parse(DT)
+    ok = True
+    for cn in ('StringType', 'BLOBType', 'ArrayOf'):
+        f = find_func(find_class(t, cn), 'checkProperties')
+        ok = ok and 'super().checkProperties()' in src(f)
+    return 'bool', cbool(ok)
+
+
+def param_value_appended_after_overrides():
+    """config.Param.__init__(self, value=Undef, **kwds): exactly `if value is not Undef: kwds['value'] = value` followed
+    by `super().__init__(**kwds)`: the dict holds the keyword overrides in the order they are written and `value` LAST
+    (Module._add_accessible walks the items in dict order: the value is checked by the datatype with all overrides of the
+    same Param applied).  Any other way of building the dict (e.g. dict(value=value, **kwds)) breaks this fact."""
+    cls = find_class(parse(CF), 'Param')
+    ok = [src(b) for b in cls.bases] == ['dict']
+    f = find_func(cls, '__init__')
+    a = f.args
+    ok = ok and [x.arg for x in a.args] == ['self', 'value'] and len(a.defaults) == 1 and src(a.defaults[0]) == 'Undef' \
+        and a.vararg is None and not a.kwonlyargs and not a.posonlyargs and a.kwarg is not None and a.kwarg.arg == 'kwds'
+    body = [n for n in f.body if not (isinstance(n, ast.Expr) and isinstance(n.value, ast.Constant))]
+    ok = ok and len(body) == 2
+    if ok:
+        first, second = body
+        ok = isinstance(first, ast.If) and src(first.test) == 'value is not Undef' and not first.orelse and \
+            [src(n).replace(' ', '') for n in first.body] == ["kwds['value']=value"]
+        ok = ok and isinstance(second, ast.Expr) and src(second).replace(' ', '') == 'super().__init__(**kwds)'
+    # nothing else of the class touches the items (no __setitem__/__iter__/items override)
+    ok = ok and [n.name for n in cls.body if isinstance(n, ast.FunctionDef)] == ['__init__']
+    # _add_accessible walks the entry in dict order
+    loops = [n for n in walk_type(_add_accessible(), ast.For)]
+    ok = ok and len(loops) == 1 and src(loops[0].iter).replace(' ', '') == 'cfg.items()' and \
+        src(loops[0].target).replace(' ', '') in ('propname,propvalue', '(propname,propvalue)')
+    return 'bool', cbool(ok)
+
+
 def float_default_relres():
     """default of FloatRange.relative_resolution as exact (m, e)"""
     cls = find_class(parse(DT), 'FloatRange')
@@ -436,7 +554,8 @@ FACTS = [module_props, param_props, command_props, checked_value_props,
          numeric_datatypes_check_properties, array_check_descends_into_members, name_map_filled_after_cfg,
          all_modules_initialised,
          registers_only_created, exit_on_errors, merge_first_wins_and_tags, modname_regex, mod_wraps_bare_values,
-         unlimited, float_default_relres]
+         unlimited, float_default_relres, dt_length_props, string_isutf8_is_bool, length_datatypes_check_properties,
+         param_value_appended_after_overrides]
 
 FINGERPRINTS = {
     'Module.__init__': _init,
@@ -448,6 +567,9 @@ FINGERPRINTS = {
     'Parameter.finish': lambda: find_func(find_class(parse(PA), 'Parameter'), 'finish'),
     'HasProperties.checkProperties': lambda: find_func(find_class(parse(PR), 'HasProperties'), 'checkProperties'),
     'config.Mod.__init__': lambda: find_func(find_class(parse(CF), 'Mod'), '__init__'),
+    'config.Param.__init__': lambda: find_func(find_class(parse(CF), 'Param'), '__init__'),
+    'ArrayOf.setProperty': lambda: find_func(find_class(parse(DT), 'ArrayOf'), 'setProperty'),
+    'HasProperties.setProperty': lambda: find_func(find_class(parse(PR), 'HasProperties'), 'setProperty'),
     'Config.merge_modules': lambda: find_func(find_class(parse(CF), 'Config'), 'merge_modules'),
     'SecNode.get_module_instance': lambda: find_func(find_class(parse(SN), 'SecNode'), 'get_module_instance'),
     'Server._processCfg': lambda: find_func(find_class(parse(SV), 'Server'), '_processCfg'),
